@@ -37,11 +37,11 @@ const (
 type Process struct {
 	sync.Mutex
 	globalEnv           []string
-	confMtx             sync.Mutex
+	confMtx             *sync.Mutex
 	nameMtx             sync.Mutex
 	procConf            *types.ProcessConfig
 	procState           *types.ProcessState
-	stateMtx            sync.Mutex
+	stateMtx            *sync.Mutex
 	procCond            sync.Cond
 	procStartedChan     chan struct{}
 	procStateChan       chan string
@@ -93,6 +93,12 @@ func NewProcess(opts ...ProcOpts) *Process {
 
 	for _, opt := range opts {
 		opt(proc)
+	}
+	if proc.stateMtx == nil {
+		proc.stateMtx = &sync.Mutex{}
+	}
+	if proc.confMtx == nil {
+		proc.confMtx = &sync.Mutex{}
 	}
 	proc.procColor = pclog.Name2Color(proc.getName())
 
